@@ -339,7 +339,7 @@ def firstError (c : Case) : Option String :=
   -- wrap: "Can't freeze a class with a custom __setattr__."
   else if hasCustomSetattr c && isFrozen c then some "valueError"
   -- add_str: "__str__ can only be generated if a __repr__ exists."
-  else if strFlag c && !reprDec c then some "valueError"
+  else if strFlag c && !reprDec c && !hasOwn (classDict c.body) "__repr__" then some "valueError"
   -- add_setattr: "Can't combine custom __setattr__ with on_setattr hooks."
   else if hooks c && hasCustomSetattr c then some "valueError"
   -- "Invalid value for hash."
